@@ -303,7 +303,28 @@ def run_shard(shard, tier, seed):
                     rep.case(("plc_time_bad", bad), outcome=s[0])
                     if not ok:
                         rep.violation("helper/plc-time-out-of-range", f"set_plc_time({bad}) -> {s!r:.120}", {"case": ("plc_time_bad", bad)})
-        rep.sample({"helpers": ["get_module_info 0..16", "get_plc_name", "get_plc_info", "get/set_plc_time"]})
+        # the route used for route_path=True is the driver's *current* route: a Micro800 drops its backplane segment while opening
+        from vmc.ref import logix as LX, projgen
+
+        for pers, want_route in (("m800", []), ("v32", [(1, b"\x00")]), ("v20", [(1, b"\x00")])):
+            proj = projgen.build("P1", 0, reduced=True)
+            ctl = LX.LogixController(proj, pers)
+            t = make_target(ctl)
+            with net.World(t, io_budget=10_000_000) as w:
+                d = pycomm3.LogixDriver("10.0.0.1")
+                o = call(d.open)
+                for rnd in range(2):
+                    t.cip_log.clear()
+                    r = call(d.generic_message, service=1, class_code=1, instance=1, connected=False, unconnected_send=True, route_path=True)
+                    e = [x for x in t.cip_log if x["transport"] == "ucsend"]
+                    fo_routes = [c.route for c in t.connections.values()]
+                    ok = o == ("ok", True) and r[0] == "ok" and len(e) == 1 and e[0]["route"] == want_route and all(fr == want_route for fr in fo_routes)
+                    rep.case(("current-route", pers, rnd), outcome="ok" if ok else "bad")
+                    if not ok:
+                        rep.violation("route/driver-route-after-open", f"LogixDriver on a {pers} controller: Unconnected Send with route_path=True carried route {[x['route'] for x in e]!r}, Forward Open routes {fo_routes!r}; the driver's route is {want_route!r} ({r!r:.80})",
+                                      {"case": ("current-route", pers, rnd)})
+                    call(d.read, next(iter(d.tags)))
+        rep.sample({"helpers": ["get_module_info 0..16", "get_plc_name", "get_plc_info", "get/set_plc_time", "current route after open (Micro800)"]})
     if k not in ("routes", "helpers"):
         w.__exit__()
     return rep
